@@ -59,13 +59,14 @@ type C04Case struct {
 	Sources []string            `json:"sources"`
 	Inc     map[string][]*TNode `json:"inc,omitempty"`
 	Tasks   [][]C04Op           `json:"tasks"`
+	Lazy    bool                `json:"lazy_pool,omitempty"` // the pool is NOT pre-parsed: the first parse on the engine happens inside the tasks
 	// the failing schedule
 	Trace  []simrt.Seg `json:"schedule,omitempty"`
 	Policy string      `json:"policy,omitempty"`
 }
 
 func genC04(r *Rng, tier string) *C04Case {
-	cs := &C04Case{Cfg: EngCfg{Strict: r.Chance(0.1)}}
+	cs := &C04Case{Cfg: genCfg(r, 0.1)}
 	ne := r.Range(1, 4)
 	for i := 0; i < ne; i++ {
 		cs.Envs = append(cs.Envs, GenEnv(r.Fork(uint64(100+i)), 0, 5))
@@ -117,6 +118,7 @@ func genC04(r *Rng, tier string) *C04Case {
 			n = r.Range(13, 32)
 		}
 	}
+	cs.Lazy = r.Chance(0.25)
 	hotT, hotB := r.Intn(nt), r.Intn(ne)
 	for i := 0; i < n; i++ {
 		var ops []C04Op
@@ -152,6 +154,7 @@ type c04World struct {
 }
 
 func c04Build(cs *C04Case) (*c04World, Res) {
+	cs.Cfg.apply()
 	c03Pin()
 	e := NewEngine(cs.Cfg)
 	names := make([]string, 0, len(cs.Inc))
@@ -176,6 +179,10 @@ func c04Build(cs *C04Case) (*c04World, Res) {
 	for _, t := range cs.Trees {
 		src := Source(t)
 		w.srcs = append(w.srcs, src)
+		if cs.Lazy {
+			w.tpls = append(w.tpls, nil) // "render" operations then use the ParseAnd* forms
+			continue
+		}
 		p := ParseLoc(e, src, filepath.Join(c20Root, "root.html"), 1)
 		w.tpls = append(w.tpls, p.T)
 	}
